@@ -167,6 +167,7 @@ def run_real(case):
             kw["epochs"] = case["epochs"]
         else:
             kw["steps"] = case["steps"]
+        kw.update(case.get("opts", {}))      # accountant options travel through **kwargs to every query
         cm = recording(phase)
     sigma, outcome = None, "ok"
     with cm:
@@ -188,11 +189,11 @@ def dedup(table):
     return out
 
 
-def real_eps(mech, sigma, q, steps, delta):
+def real_eps(mech, sigma, q, steps, delta, opts=None):
     from opacus.accountants import create_accountant
     a = create_accountant(mechanism=mech)
     a.history = [(sigma, q, steps)]
-    return float(a.get_epsilon(delta=delta))
+    return float(a.get_epsilon(delta=delta, **(opts or {})))
 
 
 # --------------------------------------------------------------------------- oracles (no model involved)
@@ -212,8 +213,8 @@ def calibration_oracle(case):
         steps = case["steps"] if "steps" in case else case["epochs"] * L
         truncated = ("epochs" in case and int(case["epochs"] / (1 / L)) == steps - 1 and {h[2] for h in r["hist"]} == {steps - 1}
                      and {h[1] for h in r["hist"]} == {1 / L})
-        e = real_eps(case["mech"], r["sigma"], 1 / L, steps, case["delta"])
-        what = f"{case['mech']} accountant, q=1/{L}, steps={steps}"
+        e = real_eps(case["mech"], r["sigma"], 1 / L, steps, case["delta"], case.get("opts"))
+        what = f"{case['mech']} accountant{' ' + repr(case['opts']) if case.get('opts') else ''}, q=1/{L}, steps={steps}"
     if e > t:
         key = "C08:overshoot:calibration-steps-truncated" if truncated else "C08:calibration:eps-above-target"
         return (key, f"get_noise_multiplier returned sigma={r['sigma']!r} for target {t}; {what} gives eps={e!r} > target", {"sigma": r["sigma"], "eps": e})
@@ -316,6 +317,14 @@ def judge_end_to_end(case, e):
             key = "C08:overshoot:inconsistent-bookkeeping"
         return (key, f"make_private_with_epsilon({mech}, len(loader)={L}, epochs={E}, target_epsilon={t}, delta={d}): calibrated for (q={e['cal_q']!r}, steps={e['cal_steps']}), "
                      f"trained {e['nsteps']} steps at accounted q={e['acc_q']!r} (len(dp_loader)={e['len_dp']}) -> get_epsilon={e['eps']!r} > target", {"facts": e})
+    if e["sampler_q"] > e["acc_q"] and mech in ("rdp", "gdp", "prv"):
+        # the engine's figure is within budget, but every example was really drawn at a higher rate than
+        # the accounted one: the same accountant at the rate and step count training actually used
+        true = real_eps(mech, e["sigma"], e["sampler_q"], e["nsteps"], d)
+        if true > t:
+            return ("C08:overshoot:sampled-rate-above-accounted", f"make_private_with_epsilon({mech}, len(loader)={L}, epochs={E}, target_epsilon={t}, delta={d}): trained {e['nsteps']} steps "
+                    f"drawing each example with probability {e['sampler_q']!r} but accounted q={e['acc_q']!r}; the {mech} accountant at the rate used gives eps={true!r} > target "
+                    f"(engine.get_epsilon reports {e['eps']!r})", {"facts": e, "true_eps": true})
     if consistent and t - e["eps"] > 0.01:
         return ("C08:undershoot:consistent-bookkeeping", f"({mech}, L={L}, epochs={E}, target={t}): final eps {e['eps']!r} more than the tolerance below target", {"facts": e})
     return None
